@@ -17,12 +17,15 @@ import (
 // C12 — downstream round trips are bounded by plan shape, not by result size.
 type c12 struct{}
 
+// the downstream client's default maximum batch size (pebbles.DefaultQueryerFactory); see C11
+const c12DefaultMaxBatch = 3000
+
 func (c12) ID() string            { return "C12" }
 func (c12) Level() string         { return "exploration" }
 func (c12) RaceIsViolation() bool { return false }
 func (c12) Rule() string {
 	return "cases = generated list-heavy universe x core operation x data size profile (every list of length 1 | 2 | 7 | 50 | 300, entity id pools of 1-3 so the same entity recurs); " +
-		"oracle over the downstream event log of one client operation: for every service s, number of HTTP calls (= batched Query calls, default batch limit 3000) <= number of plan depths at which a step for s exists (plan taken from SequentialPlanner.Plan on the same context); " +
+		"oracle over the downstream event log of one client operation: for every service s, number of HTTP calls that carry fewer requests than the default batch limit 3000 (a level of n lookups legitimately takes ceil(n/3000) calls, all but one of them full, see C11) <= number of plan depths at which a step for s exists (plan taken from SequentialPlanner.Plan on the same context); " +
 		"inside one call no two requests with the same query text and variables exactly {id: x}; and the HTTP answer still equals the reference (every duplicate occurrence stitched); " +
 		"distinct = distinct (universe, operation, size profile); non-trivial = plan has >= 2 steps and some intermediate list has >= 2 entries"
 }
@@ -66,6 +69,24 @@ func (p c12) Gen(c *run.Ctx, idx int) (json.RawMessage, error) {
 	spec := cu.spec
 	spec.Data.FixedLen = c12Sizes[idx%len(c12Sizes)]
 	return mustJSON(opCase{U: spec, Op: *op, UIdx: uidx}), nil
+}
+
+const c12MaxObjects = 40000
+
+func countObjects(v any) int {
+	n := 0
+	switch x := v.(type) {
+	case map[string]any:
+		n = 1
+		for _, e := range x {
+			n += countObjects(e)
+		}
+	case []any:
+		for _, e := range x {
+			n += countObjects(e)
+		}
+	}
+	return n
 }
 
 func maxListLen(v any) int {
@@ -129,6 +150,13 @@ func (p c12) Exec(c *run.Ctx, idx int, raw json.RawMessage) []run.Result {
 		return []run.Result{res}
 	}
 	refData := rig.Roundtrip(ref.Data)
+	if n := countObjects(refData); n > c12MaxObjects {
+		// bound of the exploration (memory: a worker answering > 100k lookups under the race detector grew past 50 GB)
+		res.Verdict = run.Skip
+		res.Counters["answer_larger_than_bound"] = 1
+		res.Message = fmt.Sprintf("reference answer holds %d objects (bound %d)", n, c12MaxObjects)
+		return []run.Result{res}
+	}
 	tags := map[string]bool{fmt.Sprintf("len=%d", sp.U.Data.FixedLen): true, fmt.Sprintf("pool=%d", sp.U.Data.Pool): true}
 	ml := maxListLen(refData)
 	res.NonTrivial = steps >= 2 && ml >= 2
@@ -141,6 +169,7 @@ func (p c12) Exec(c *run.Ctx, idx int, raw json.RawMessage) []run.Result {
 	evs := r.Log.Since(mark)
 	var viol []violation
 	callsPerSvc := map[string]map[int64]bool{}
+	fullCalls := map[int64]bool{} // calls carrying the configured maximum (C11's chunking): a level of n lookups legitimately takes ceil(n/max) calls, at most one of them not full
 	inCall := map[int64]map[string]int{}
 	urlOf := map[string]string{}
 	for _, s := range r.Services {
@@ -151,6 +180,9 @@ func (p c12) Exec(c *run.Ctx, idx int, raw json.RawMessage) []run.Result {
 			callsPerSvc[e.Service] = map[int64]bool{}
 		}
 		callsPerSvc[e.Service][e.CallID] = true
+		if e.BatchSize >= c12DefaultMaxBatch {
+			fullCalls[e.CallID] = true
+		}
 		if len(e.Variables) == 1 {
 			if id, ok := e.Variables["id"]; ok {
 				if inCall[e.CallID] == nil {
@@ -164,7 +196,13 @@ func (p c12) Exec(c *run.Ctx, idx int, raw json.RawMessage) []run.Result {
 	for svc, calls := range callsPerSvc {
 		totalCalls += len(calls)
 		lv := len(levels[urlOf[svc]])
-		if len(calls) > lv {
+		notFull := 0
+		for id := range calls {
+			if !fullCalls[id] {
+				notFull++
+			}
+		}
+		if notFull > lv {
 			viol = append(viol, violation{"more-calls-than-plan-levels", fmt.Sprintf("service %s: %d batched calls for %d plan level(s); list length profile %d, %d downstream requests in total", svc, len(calls), lv, sp.U.Data.FixedLen, len(evs))})
 		}
 	}
